@@ -30,18 +30,24 @@ func main() {
 			"WRITES: per receive every assignment of {ok,error,misreport,error-after-effect,gate} to the replicas (5^n exhaustive for n<=3; n=4: all 2^n ok/error plus seeded mixed), "+
 			"each under several completion schedules (free-running with gated replicas released early / only after the call returned or blocked; fully serialised completion orders = permutations of the replicas); "+
 			"verdict from the global event order (replica `stored` events vs. the ack). "+
-			"READS: every placement of 3 blobs over the read replicas / none / only a non-read replica, fetch under every subset of failing read replicas, stat+enumerate through the reference-map checker. "+
+			"READS: every placement of 3 blobs over the read replicas / none / only a non-read replica, fetch under every subset of failing read replicas, stat+enumerate through the reference-map checker; "+
+			"the same placements with every non-empty set of read replicas that report WRONG SIZES in their own stat/enumerate answers (short/long/zero/per-replica-different; about all or some blobs), and replicas that are consistently wrong on receive+stat+enumerate with blobs written through the store (each ref once, ascending, within limit, complete; which size wins is not judged); "+
+			"fetch with every assignment of {ok,slow,error} to the read replicas (slow = gated Fetch released only once the fetch returned or was seen waiting). "+
 			"distinct = (n,m,read set,mode assignment,schedule) resp. (n,read set,placement); non-trivial = at least one faulty/slow replica or m<n, resp. at least one blob on >=2 or 0 read replicas",
 		run)
 }
 
-// node is one replica: memory store <- inject wrapper (own plan) <- turnstile (harness-side ordering).
+// node is one replica: memory store <- inject wrapper (own plan) <- liar (read misbehaviour,
+// misread.go) <- turnstile (harness-side ordering).
 type node struct {
 	name string
 	mem  *memory.Storage
 	plan *inject.Plan
 	wrap *inject.Storage
+	liar *liar // harness-side read misbehaviour (wrong sizes in stat/enumerate, gated Fetch); passive unless set up
 	ts   *turnstile
+	// evBase: the wrapper's store events before this index belong to earlier cases on this replica
+	evBase int
 }
 
 func newNode(name, matchOp string) *node {
@@ -50,7 +56,8 @@ func newNode(name, matchOp string) *node {
 	nd.plan.Match = func(layer, op string) bool { return op == matchOp }
 	w := inject.Wrap(name, nd.mem, nd.plan)
 	nd.wrap = inject.Base(w)
-	nd.ts = &turnstile{Storage: w, ctl: map[string]*ctl{}}
+	nd.liar = &liar{Storage: w}
+	nd.ts = &turnstile{Storage: nd.liar, ctl: map[string]*ctl{}}
 	return nd
 }
 
@@ -149,12 +156,16 @@ func run(r *ev.Run) {
 	r.Assume("oracle for a misreporting replica: the size a replica has stored is the size it acknowledges (the only thing an observer above the replica can know); a replica that acknowledges a wrong size has not 'stored the blob with the correct size' and is not counted toward the quorum, although the injector's inner memory store happens to hold the right bytes")
 	r.Assume("a replica that stored the blob and then reported an error (lost ack) counts as having stored it (ground truth from the wrapper's stored event); it does not count as a replica that 'can succeed' for the must-return-error rule")
 	r.Assume("stragglers that finish after an early ack (m<n) are not judged beyond the quorum rule; each case uses a fresh blob and waits for quiescence before its read-back")
+	r.Assume("a read replica that reports a wrong size for a blob in its stat/enumerate answer is inside the quantifier (failing replicas per operation: error, wrong size, slow); the replica store must still report the blob exactly once; the size it reports must be one that some holding read replica reported, which one is not judged")
 	r.Assume("bounded waits (a few ms) are used only to choose the next harness action (release a gate before or after the call returned); every verdict is computed from the recorded global event sequence")
 
 	var jobs []job
 	jobs = append(jobs, writeJobs(r)...)
 	jobs = append(jobs, readJobs(r)...)
 	jobs = append(jobs, historyJobs(r)...)
+	jobs = append(jobs, misreadJobs(r)...)
+	jobs = append(jobs, miswriteJobs(r)...)
+	jobs = append(jobs, gatedFetchJobs(r)...)
 	runJobs(24, jobs)
 	runRetryCases(r)
 
@@ -168,7 +179,9 @@ func run(r *ev.Run) {
 	{
 		r.Require("modes_delivered", "error", "error-after-effect", "misreport", "gate")
 		r.Require("modes_assigned", "ok", "error", "error-after-effect", "misreport", "gate")
-		r.Require("schedules", "free", "free-early", "free-late", "perm")
+		r.Require("schedules", "free", "free-early", "free-late", "free-late-overlap", "perm")
+		r.Require("overlap", "second-receive-while-straggler-pending")
+		r.Require("empty_blob_class", "all-ok", "quorum-reachable-despite-faults", "quorum-needs-slow-replica", "quorum-impossible")
 		r.Require("gate_release", "before-return", "after-return", "while-call-blocked")
 		r.Require("outcomes", "ack", "error", "ack-before-all-replicas-done", "error-after-all-replicas-done")
 		r.Require("assignment_class", "all-ok", "quorum-reachable-despite-faults", "quorum-needs-slow-replica", "quorum-impossible")
@@ -181,5 +194,20 @@ func run(r *ev.Run) {
 		r.Require("history", "receive", "fetch", "stat", "enumerate", "remove", "re-receive", "audit")
 		r.Require("retry_scenarios", "retry-after-failed-write", "only-read-replica-has-it")
 		r.Require("retry_outcomes", "ack", "error")
+	}
+	{
+		// read replicas that misreport sizes in their own stat / enumerate answers (misread.go)
+		r.Require("wrong_size_reads_n", "n1", "n2", "n3", "n4")
+		r.Require("wrong_size_ops", "both", "enumerate", "stat")
+		r.Require("wrong_size_kind", "short", "long", "zero", "differ")
+		r.Require("wrong_size_overlap", "liar-and-honest-holder", "liar-before-honest-in-read-order", "honest-before-liar-in-read-order",
+			"all-holders-lie", "two-liars-disagree", "two-liars-agree", "only-some-blobs-lied-about", "empty-blob-lied-about")
+		r.Require("wrong_size_writes", "wrong-and-right-read-replica", "every-holding-read-replica-wrong", "only-write-only-replica-wrong",
+			"acked-despite-wrong-size-replicas", "refused-but-replicas-hold-it")
+		r.Require("wrong_size_write_outcomes", "ack", "error")
+		// slow read replicas on Fetch
+		r.Require("slow_fetch_release", "late", "early")
+		r.Require("slow_fetch", "released-while-fetch-waiting", "every-serving-holder-slow", "slow-holder-fast-non-holder",
+			"slow-holder-failing-other", "slow-non-holder-before-holder", "no-serving-holder")
 	}
 }
